@@ -570,39 +570,52 @@ theorem fluent_check_pos_in_range (s : Array Nat) (e : Entry) (msgs : List Ftl.M
 
 `Pipe.parseFile` is the parse stage of the composed pipeline (C01 parser model + C18 junk ids + C02 values),
 `Pipe.runChecker` the checker of the format (base `Checker` for ini/inc/po, `PropertiesChecker` for properties),
-`Pos.resolveCheckPos … .plain` the `isinstance(pos, EntityPos)` dispatch of compare and lint. -/
+`Pos.resolveCheckPos … .plain` the `isinstance(pos, EntityPos)` dispatch of compare and lint
+(`Pipe.resolvePos … Cls.plain`, the class `Pipe.clsOf` gives these four formats).
+
+Since the pipeline model covers DTD as well (C05), its functions take the external library functions as a parameter
+(`Pipe.Ext`: expat's verdicts, `html.unescape`) and the checker object is a `Pipe.CkCtx` (class, `locale`, and what only
+`DTDChecker` reads: its XML parser and the reference values).  The theorems below hold FOR ALL `ext` and for EVERY
+checker object of the class `getChecker` picks for the format (`ck.kind = Pipe.checkerOf fmt`), whatever its locale. -/
 
 def CoveredFmt (f : P.Fmt) : Prop := f = .ini ∨ f = .inc ∨ f = .po ∨ f = .properties
 
-theorem covered_checker {f : P.Fmt} (h : CoveredFmt f) : ∃ ck, Pipe.checkerOf f = some ck := by
-  rcases h with rfl | rfl | rfl | rfl <;> exact ⟨_, rfl⟩
+theorem covered_ne_dtd {f : P.Fmt} (h : CoveredFmt f) : f ≠ .dtd := by
+  rcases h with rfl | rfl | rfl | rfl <;> decide
+
+/-- the checker of a covered format is the base `Checker` or `PropertiesChecker`, and its entities are base `Entity` -/
+theorem covered_checker {f : P.Fmt} (h : CoveredFmt f) :
+    (Pipe.checkerOf f = .base ∨ Pipe.checkerOf f = .properties) ∧ Pipe.clsOf f = .plain := by
+  rcases h with rfl | rfl | rfl | rfl <;> simp [Pipe.checkerOf, Pipe.clsOf]
 
 /-- **what the position of a checker result denotes**, for every text, every localizable entry `l` of its parse, every
     reference entry `r` and locale: a `Target` — the offset of a U+FFFD inside the entry; an offset inside the value
     span (its start, a backslash, or a `%` when the raw value has no backslash); or, when the entry has an attached
     pre-comment, the KNOWN FINDING shape (U+FFFD at `a + k`, reported the pair of `span[0] + k`). -/
-theorem check_pos_target (fmt : P.Fmt) (hf : CoveredFmt fmt) (ck : Pipe.CheckerKind) (hck : Pipe.checkerOf fmt = some ck)
-    (s : Array Nat) (n0 n1 : Nat) (ents : List Pipe.PEnt) (hp : Pipe.parseFile fmt s n0 = .ok (ents, n1))
-    (l : Pipe.PEnt) (hl : l ∈ ents) (r : Pipe.PEnt) (locale : Option Pipe.Text) (rs : List Pipe.CheckRes)
-    (hrun : Pipe.runChecker ck locale r l = .ok rs) (c : Pipe.CheckRes) (hc : c ∈ rs) (b : Int × Int)
+theorem check_pos_target (ext : Pipe.Ext) (fmt : P.Fmt) (hf : CoveredFmt fmt) (ck : Pipe.CkCtx)
+    (hck : ck.kind = Pipe.checkerOf fmt)
+    (s : Array Nat) (n0 n1 : Nat) (ents : List Pipe.PEnt) (hp : Pipe.parseFile ext fmt s n0 = .ok (ents, n1))
+    (l : Pipe.PEnt) (hl : l ∈ ents) (r : Pipe.PEnt) (rs : List Pipe.CheckRes)
+    (hrun : Pipe.runChecker ck r l = .ok rs) (c : Pipe.CheckRes) (hc : c ∈ rs) (b : Int × Int)
     (hres : resolveCheckPos s .plain l.entry c.pos = some b) : Target s l.entry b := by
-  have hne : fmt ≠ .dtd := by rcases hf with rfl | rfl | rfl | rfl <;> decide
-  exact (C17P.resolve_target fmt ck hck s locale r l (C17P.parseFile_facts fmt hne s n0 ents n1 hp l hl) rs hrun c hc b hres).1
+  have hne : fmt ≠ .dtd := covered_ne_dtd hf
+  exact (C17P.resolve_target fmt hne ck hck s r l (C17P.parseFile_facts ext fmt hne s n0 ents n1 hp l hl) rs hrun c hc b hres).1
 
 /-- **`check_pos_in_range`, composed**: start of the entity ≤ reported position ≤ end of the file, for every checker
     result of an entry without attached pre-comment, and for every int (value) position whatever the comments —
     no hypothesis on the checker.  (With a pre-comment an `EntityPos` can fall beyond the end of the file: the last
     `example` of this file, finding C17-entitypos-counts-from-precomment.) -/
-theorem check_pos_in_range (fmt : P.Fmt) (hf : CoveredFmt fmt) (ck : Pipe.CheckerKind) (hck : Pipe.checkerOf fmt = some ck)
-    (s : Array Nat) (n0 n1 : Nat) (ents : List Pipe.PEnt) (hp : Pipe.parseFile fmt s n0 = .ok (ents, n1))
-    (l : Pipe.PEnt) (hl : l ∈ ents) (r : Pipe.PEnt) (locale : Option Pipe.Text) (rs : List Pipe.CheckRes)
-    (hrun : Pipe.runChecker ck locale r l = .ok rs) (c : Pipe.CheckRes) (hc : c ∈ rs) (b : Int × Int)
+theorem check_pos_in_range (ext : Pipe.Ext) (fmt : P.Fmt) (hf : CoveredFmt fmt) (ck : Pipe.CkCtx)
+    (hck : ck.kind = Pipe.checkerOf fmt)
+    (s : Array Nat) (n0 n1 : Nat) (ents : List Pipe.PEnt) (hp : Pipe.parseFile ext fmt s n0 = .ok (ents, n1))
+    (l : Pipe.PEnt) (hl : l ∈ ents) (r : Pipe.PEnt) (rs : List Pipe.CheckRes)
+    (hrun : Pipe.runChecker ck r l = .ok rs) (c : Pipe.CheckRes) (hc : c ∈ rs) (b : Int × Int)
     (hres : resolveCheckPos s .plain l.entry c.pos = some b)
     (hdom : l.entry.pc = none ∨ ∃ n, c.pos = .offset n) :
     ∃ a cEnd, position s l.entry 0 = some a ∧ linecol s (s.size : Int) = some cEnd ∧ lexLeI a b ∧ lexLeI b cEnd := by
-  have hne : fmt ≠ .dtd := by rcases hf with rfl | rfl | rfl | rfl <;> decide
-  have hfacts := C17P.parseFile_facts fmt hne s n0 ents n1 hp l hl
-  obtain ⟨ht, hoff⟩ := C17P.resolve_target fmt ck hck s locale r l hfacts rs hrun c hc b hres
+  have hne : fmt ≠ .dtd := covered_ne_dtd hf
+  have hfacts := C17P.parseFile_facts ext fmt hne s n0 ents n1 hp l hl
+  obtain ⟨ht, hoff⟩ := C17P.resolve_target fmt hne ck hck s r l hfacts rs hrun c hc b hres
   have hin : ∃ p, l.entry.s ≤ p ∧ p ≤ l.entry.e ∧ b = castLC (cursor s p) := by
     rcases hdom with hno | hn
     · obtain ⟨p, h1, h2, _, h4⟩ := ht.inside hfacts.e_le hno
@@ -639,26 +652,24 @@ theorem target_in_text (s : Array Nat) (e : Entry) (lc : Int × Int) (h : Target
       of the END of the junk span (both ends);
     * "Duplicate string with ID" / "Changes to string require a new ID" — at the start of THIS occurrence;
     * a checker finding — at a `Target` of the entry (U+FFFD / value offset / the known pre-comment shift). -/
-theorem lint_positions_end_to_end (fmt : P.Fmt) (hf : CoveredFmt fmt) (refText : Option (Array Nat)) (s : Array Nat)
-    (rs : List Lint.Result) (h : Pipe.lintText fmt refText s = .ok rs) :
-    ∃ cur n0 n1, Pipe.parseFile fmt s n0 = .ok (cur, n1) ∧ ∀ r ∈ rs, ∃ pe ∈ cur, LintWhy s pe r := by
-  obtain ⟨ck, hck⟩ := covered_checker hf
-  obtain ⟨cur, n0, n1, hp, _, hall⟩ := C17P.lintText_explained fmt ck hck refText s rs h
+theorem lint_positions_end_to_end (ext : Pipe.Ext) (fmt : P.Fmt) (hf : CoveredFmt fmt) (refText : Option (Array Nat))
+    (s : Array Nat) (rs : List Lint.Result) (h : Pipe.lintText ext fmt refText s = .ok rs) :
+    ∃ cur n0 n1, Pipe.parseFile ext fmt s n0 = .ok (cur, n1) ∧ ∀ r ∈ rs, ∃ pe ∈ cur, LintWhy s pe r := by
+  obtain ⟨cur, n0, n1, hp, _, hall⟩ := C17P.lintText_explained ext fmt (covered_ne_dtd hf) refText s rs h
   exact ⟨cur, n0, n1, hp, hall⟩
 
 /-- … and therefore every reported (lineno, column) is INSIDE the text — `1 ≤ line ≤ number of lines`,
     `1 ≤ column ≤ length of that line + 1`, and the pair denotes an offset `p ≤ len` of the entry it belongs to
     (`offsetOf` recovers it) — except for the known finding: a U+FFFD warning of an entry with an attached pre-comment,
     whose pair is that of `span[0] + k` while the U+FFFD is at `a + k` (`a` = start of the pre-comment). -/
-theorem lint_positions_in_text (fmt : P.Fmt) (hf : CoveredFmt fmt) (refText : Option (Array Nat)) (s : Array Nat)
-    (rs : List Lint.Result) (h : Pipe.lintText fmt refText s = .ok rs) :
+theorem lint_positions_in_text (ext : Pipe.Ext) (fmt : P.Fmt) (hf : CoveredFmt fmt) (refText : Option (Array Nat))
+    (s : Array Nat) (rs : List Lint.Result) (h : Pipe.lintText ext fmt refText s = .ok rs) :
     ∀ r ∈ rs,
       (∃ l c len p : Nat, (r.lineno, r.column) = ((l : Int), (c : Int)) ∧ 1 ≤ l ∧ l ≤ numLines s.toList ∧ 1 ≤ c ∧
         lineLen s.toList (l - 1) = some len ∧ c ≤ len + 1 ∧ p ≤ s.size ∧ offsetOf s (l, c) = some p) ∨
       (∃ (e : Entry) (a b k : Nat), e.pc = some (a, b) ∧ s[a + k]? = some 0xFFFD ∧ a ≤ e.s ∧
         (r.lineno, r.column) = castLC (cursor s (e.s + k))) := by
-  obtain ⟨ck, hck⟩ := covered_checker hf
-  obtain ⟨cur, n0, n1, hp, hfacts, hall⟩ := C17P.lintText_explained fmt ck hck refText s rs h
+  obtain ⟨cur, n0, n1, hp, hfacts, hall⟩ := C17P.lintText_explained ext fmt (covered_ne_dtd hf) refText s rs h
   intro r hr
   obtain ⟨pe, hpe, hwhy⟩ := hall r hr
   have hf' := hfacts pe hpe
@@ -685,26 +696,26 @@ theorem lint_positions_in_text (fmt : P.Fmt) (hf : CoveredFmt fmt) (refText : Op
     `Junk.error_message()` of a Junk `j` of the localized file — its text, then the pair of its START, then the pair of
     its END, in this order (`junkText`);
     `"<msg> at line <l>, column <c> for <key>"` with `(l, c)` a `Target` of a localizable entry of the localized file. -/
-theorem compare_positions_end_to_end (fmt : P.Fmt) (hf : CoveredFmt fmt) (file : ObsM.File) (hm : ObsM.Modelled file)
+theorem compare_positions_end_to_end (ext : Pipe.Ext) (fmt : P.Fmt) (hf : CoveredFmt fmt) (file : ObsM.File)
+    (hm : ObsM.Modelled file)
     (q : Nat) (flts : List (Option ObsM.Filter)) (refText l10nText : Array Nat) (mergeOn : Bool) (r : Pipe.Report)
-    (h : Pipe.compareFiles fmt file (ObsM.ObsList.init q (flts.map (ObsM.Obs.init q))) refText l10nText mergeOn = .ok r) :
-    ∃ l10n n0 n1, Pipe.parseFile fmt l10nText n0 = .ok (l10n, n1) ∧
+    (h : Pipe.compareFiles ext fmt file (ObsM.ObsList.init q (flts.map (ObsM.Obs.init q))) refText l10nText mergeOn = .ok r) :
+    ∃ l10n n0 n1, Pipe.parseFile ext fmt l10nText n0 = .ok (l10n, n1) ∧
       ∀ leaf ∈ r.details, ∀ d ∈ leaf.2, (d.1 = .error ∨ d.1 = .warning) →
         ∃ t, d.2 = .data (.str t) ∧ DetailWhy l10nText l10n t := by
-  obtain ⟨ck, hck⟩ := covered_checker hf
   obtain ⟨l10n, n0, n1, hp, _, hall⟩ :=
-    C17P.compareFiles_details_explained fmt ck hck file hm q flts refText l10nText mergeOn r h
+    C17P.compareFiles_details_explained ext fmt (covered_ne_dtd hf) file hm q flts refText l10nText mergeOn r h
   exact ⟨l10n, n0, n1, hp, hall⟩
 
 /-- the junk message: both pairs are inside the text, the first is the start of the junk (`1 ≤ …`, recoverable), the
     second its end, and start ≤ end -/
-theorem junk_text_positions (fmt : P.Fmt) (hf : CoveredFmt fmt) (s : Array Nat) (n0 n1 : Nat) (ents : List Pipe.PEnt)
-    (hp : Pipe.parseFile fmt s n0 = .ok (ents, n1)) (j : Pipe.PEnt) (hj : j ∈ ents) :
+theorem junk_text_positions (ext : Pipe.Ext) (fmt : P.Fmt) (hf : CoveredFmt fmt) (s : Array Nat) (n0 n1 : Nat)
+    (ents : List Pipe.PEnt) (hp : Pipe.parseFile ext fmt s n0 = .ok (ents, n1)) (j : Pipe.PEnt) (hj : j ∈ ents) :
     j.entry.s ≤ j.entry.e ∧ j.entry.e ≤ s.size ∧
     offsetOf s (cursor s j.entry.s) = some j.entry.s ∧ offsetOf s (cursor s j.entry.e) = some j.entry.e ∧
     lexLeI (castLC (cursor s j.entry.s)) (castLC (cursor s j.entry.e)) := by
-  have hne : fmt ≠ .dtd := by rcases hf with rfl | rfl | rfl | rfl <;> decide
-  have hfacts := C17P.parseFile_facts fmt hne s n0 ents n1 hp j hj
+  have hne : fmt ≠ .dtd := covered_ne_dtd hf
+  have hfacts := C17P.parseFile_facts ext fmt hne s n0 ents n1 hp j hj
   exact ⟨hfacts.s_le_e, hfacts.e_le, offsetOf_cursor s _, offsetOf_cursor s _, cursor_mono s _ _ hfacts.s_le_e⟩
 
 /-! ### round 4 — duplicates: every occurrence reports ITS OWN position -/
@@ -805,6 +816,9 @@ example : nlEndBefore [97, 10, 98, 99] 4 = 2 ∧ nlEndBefore [97, 10, 98, 99, 10
 example : (({ contents := #[97, 10, 98, 99, 10] } : Ctx).linecolSeq [5, 0, 3, 1, -1]).1 =
     [some (3, 1), some (1, 1), some (2, 2), some (1, 2), some (1, 0)] := by decide
 
+/- the witnesses below run the pipelines of ini / properties, which never consult the external functions
+   (`PipeBridge.lintText_ext_irrel`, `PipeBridge.compareTexts_ext_irrel`): `default` is the `Pipe.Ext` the driver operations
+   `c05.lint` / `c05.compare` use when no table of externals is sent -/
 def lintPairs (r : Except Pipe.PyErr (List Lint.Result)) : List (Int × Int) :=
   match r with
   | .ok rs => rs.map (fun x => (x.lineno, x.column))
@@ -812,13 +826,13 @@ def lintPairs (r : Except Pipe.PyErr (List Lint.Result)) : List (Int × Int) :=
 
 /-- lint end to end on "a=x\\q\n??\na=1" (properties): duplicate `a` at (1,1) — its own start —, the unknown escape
     `\q` at the backslash (1,4), the junk `??\n` at its start (2,1), the second `a` duplicate at ITS start (3,1) -/
-example : lintPairs (Pipe.lintText .properties none #[97, 61, 120, 92, 113, 10, 63, 63, 10, 97, 61, 49]) =
+example : lintPairs (Pipe.lintText default .properties none #[97, 61, 120, 92, 113, 10, 63, 63, 10, 97, 61, 49]) =
     [(1, 1), (1, 4), (2, 1), (3, 1)] := by decide +kernel
 
 /-- NEGATION WITNESS for the hypothesis `pc = none` of `check_pos_in_range` / the second disjunct of
     `lint_positions_in_text` (finding C17-entitypos-counts-from-precomment), through the whole lint pipeline:
     "# c\nk=�" is reported at (2, 7); the file ends at (2, 4) and the U+FFFD is at (2, 3) -/
-example : lintPairs (Pipe.lintText .ini none #[35, 32, 99, 10, 107, 61, 65533]) = [(2, 7)] ∧
+example : lintPairs (Pipe.lintText default .ini none #[35, 32, 99, 10, 107, 61, 65533]) = [(2, 7)] ∧
     linecol #[35, 32, 99, 10, 107, 61, 65533] 7 = some (2, 4) ∧ linecol #[35, 32, 99, 10, 107, 61, 65533] 6 = some (2, 3) := by
   decide +kernel
 
@@ -828,7 +842,7 @@ example : lintPairs (Pipe.lintText .ini none #[35, 32, 99, 10, 107, 61, 65533]) 
     `%` of the file is at column 16.  In range (`check_pos_in_range`), 1-based, but not at the `%`. -/
 example :
     let l10n : Array Nat := #[107, 61, 92, 117, 48, 48, 52, 49, 92, 117, 48, 48, 52, 50, 32, 37]
-    (match Pipe.compareTexts .properties #[107, 61, 37, 83] l10n false with
+    (match Pipe.compareTexts default .properties #[107, 61, 37, 83] l10n false with
      | .ok r => r.details.map (fun leaf => leaf.2.map (fun d => d.2))
      | .error _ => []) = [[.data (.str [70, 111, 117, 110, 100, 32, 115, 105, 110, 103, 108, 101, 32, 37, 32, 97, 116, 32, 108,
         105, 110, 101, 32, 49, 44, 32, 99, 111, 108, 117, 109, 110, 32, 54, 32, 102, 111, 114, 32, 107])]] ∧
